@@ -6,4 +6,4 @@ Extraction "c13_model.ml" proto_anchor
   no_of_angles rotation_planes set_angles set_anis givens_rotation
   matrix_rotate matrix_derotate matrix_isotropify matrix_anisotropify matrix_isometrize matrix_anisometrize
   set_len_anis set_model_angles construct gstep gsteps field_dim spatial_dim isometrize anisometrize cov_yadrenko
-  krige_mat krige_vecs krige_system latlon_bins_max_dist in_bin.
+  krige_mat krige_vecs krige_system latlon_bins_max_dist latlon_bins_last_edge in_bin hinit hstep hrun holder_system.
